@@ -110,7 +110,7 @@ func commercialCheck(val string) error {
 
 	// Establish check digits by subtracting 97 from total until negative.
 	checkDigit := sum
-	for checkDigit > 0 {
+	for checkDigit >= 0 {
 		checkDigit = checkDigit - 97
 	}
 
